@@ -100,7 +100,7 @@ CHECKS['C15'] = dict(
     title='Predicates tell the truth',
     level='exploration',
     technique='bounded-exhaustive enumeration of splines and spline pairs on the real predicates against reference predicates on the exact reference model',
-    level_text='isZero on every (window, order, coefficient pattern incl. zero on some/all intervals); checkOverlap on every ordered window pair x order pair on a shared grid and on equal distinct grid objects; ==/!= on every window pair x coefficient-pattern pair on the same grid, an equal copy and a grid with one point moved. Floating types: tiny coefficients are not zero, coefficient vectors that differ in the last bit are unequal, +0 and -0 are equal coefficient values (bitwise comparisons show here). Exact, exhaustive within the bounds.',
+    level_text='isZero on every (window, order, coefficient pattern incl. zero on some/all intervals); checkOverlap on every ordered window pair x order pair on a shared grid and on equal distinct grid objects; every predicate also with the same object as both arguments and with an object against its copy (interval-free, point-like and ordinary windows); ==/!= on every window pair x coefficient-pattern pair on the same grid, an equal copy and a grid with one point moved. Floating types: tiny coefficients are not zero, coefficient vectors that differ in the last bit are unequal, +0 and -0 are equal coefficient values (bitwise comparisons show here). Exact, exhaustive within the bounds.',
     level_note='Trusted: GMP, engine/refpp.h (two independent formulations of each expected value are cross-checked in every case). Reflexivity is claimed for finite coefficients only (NaN != NaN).',
     units=std_units('checks/c15_predicates.cpp'),
     rule='cases = isZero(grid, window, order, pattern) | overlap(grid variant, order pair, window pair) | eq(grid variant, order, window pair, pattern pair). Non-trivial = operands have intervals (isZero: spline non-zero).',
@@ -205,7 +205,7 @@ CHECKS['C08'] = dict(
     title='Operations across different grids are refused, never computed',
     level='exploration',
     technique='bounded-exhaustive enumeration of (entry point x way the grids differ x window placement on both sides) on the real code; oracle = exception type and code, argument snapshots, and equality with the shared-instance result for equal grids in distinct objects',
-    level_text='25 entry points (binary operators and in-place forms, linearCombination with the odd grid at every position and with zero coefficients on the odd-grid spline, on the others and on all, bilinear forms plain and with spline factor, linear form and operator application with spline factor, integrate<3>, generator with supplied grid) x every perturbation of a 5-point and of a 4-point grid (odd and even sizes) (each point moved, extra point at front/back/inside every gap, every proper prefix and suffix, equal copy) x every window on both sides, including windows that agree exactly where the supports meet and interval-free arguments.',
+    level_text='25 entry points (binary operators and in-place forms, linearCombination with the odd grid at every position and with zero coefficients on the odd-grid spline, on the others and on all, bilinear forms plain and with spline factor, linear form and operator application with spline factor, integrate<3>, generator with supplied grid for simple, clamped and interior-double knot vectors) x every perturbation of a 5-point and of a 4-point grid (odd and even sizes) (each point moved, extra point at front/back/inside every gap, every proper prefix and suffix, equal copy) x every window on both sides, including windows that agree exactly where the supports meet and interval-free arguments.',
     level_note='Trusted: the expected-outcome rule written in checks/c08_grids.cpp from the statement. For spline factors a throw is required only if the operand has an interval (DESIGN.md 5). integrate<n> is exercised in double (boost quadrature), judged on refusal and on equality with the shared-instance result only.',
     units=std_units('checks/c08_grids.cpp'),
     rule='cases = (order pair, grid variant, entry point, window on G, window on G\'). Non-trivial = grids differ logically and a refusal is required.',
